@@ -415,7 +415,7 @@ class LList(V):
     """lazily initialised list of impure elements: symbolic length, cells by concrete index"""
 
     kind = "llist"
-    __slots__ = ("elem_ty", "length", "cells", "name", "appended")
+    __slots__ = ("elem_ty", "length", "cells", "name", "appended", "sym_writes")
 
     def __init__(self, elem_ty, length, name):
         self.elem_ty = elem_ty
@@ -423,13 +423,14 @@ class LList(V):
         self.cells = {}
         self.name = name
         self.appended = []  # values appended during execution (after the lazy prefix)
+        self.sym_writes = []  # (index term, value) stores at a symbolic index; any other read afterwards is unsupported
 
 
 class LDict(V):
     """lazily initialised dict with impure values: entries materialise on lookup"""
 
     kind = "ldict"
-    __slots__ = ("kty", "vty", "entries", "name", "default_factory", "version")
+    __slots__ = ("kty", "vty", "entries", "name", "default_factory", "version", "value_inv")
 
     def __init__(self, kty, vty, name, default_factory=None):
         self.kty = kty
@@ -438,6 +439,7 @@ class LDict(V):
         self.name = name
         self.default_factory = default_factory
         self.version = 0
+        self.value_inv = None  # (I, key, value) -> z3 Bool assumed of every pre-state value (data-structure invariant)
 
 
 class SObj(V):
